@@ -199,8 +199,25 @@ def worker(task):
             except Exception:
                 rec['tree'] = None
             recs.append(rec)
-        # raw byte corruption of the text
+        # mapping keys that are not strings, written in the text: a sequence or a mapping as a key (unhashable), a number,
+        # a boolean, null — at a random mapping of the document
         base_text = hfront.dump_yaml(cfg, v3root=(dialect == 3))
+        tl = base_text.split('\n')
+        keyed = [i for i, l in enumerate(tl) if l.strip() and not l.strip().startswith(('-', '#', '%', '?')) and ':' in l
+                 and not l.startswith('---')]
+        for ck in rnd.sample(['? [cx, cy]', '? {ca: 1}', '? 12', '? true', '? ~', '? [[1]]'], 3):
+            if not keyed:
+                break
+            i = rnd.choice(keyed)
+            ind = tl[i][:len(tl[i]) - len(tl[i].lstrip())]
+            text = '\n'.join(tl[:i] + [ind + ck, ind + ': 1'] + tl[i:])
+            w = hfront.World(dirs, False, True, dialect)
+            wd = os.path.join(workdir, f'k{dialect}_{abs(hash(ck)) % 1000}')
+            w.materialise(wd)
+            out = load_and_generate(text, w.paths, os.path.join(wd, 'gen'))
+            recs.append({'dialect': dialect, 'what': 'text:key ' + ck, 'text': text, 'dirs': dirs, 'out': list(out),
+                         'kind': 'text', 'tree': None})
+        # raw byte corruption of the text
         w = hfront.World(dirs, False, True, dialect)
         w.materialise(os.path.join(workdir, f'b{dialect}'))
         for i in range(nbytes):
